@@ -86,7 +86,7 @@ def check(c):
               'sampled otherwise; non-trivial = the plain evaluation of the input succeeds or the input assigns/draws/asks a rate; distinct by (context, input, k)')
     ok = c.proof(['C13'], extra_targets=['Extract/XEval.vo'])
     if c.tier == 'thorough' and ok:
-        c.thorough_proof(['C13'])
+        thorough_proof(c, ['C13'])
     r = c.rng
     full, prefixes, kinds = build_inputs(c)
     kfull = 10 if c.tier == 'quick' else 40
@@ -173,6 +173,11 @@ def check(c):
             expected = ('', 1, 1)
         got = (pk.text, pk.is_unit, pk.trailing_newline)
         interrupted_possible = pk.k >= 0 and pk.k < n_uninterrupted
+        # text with a non-C0 control character or U+2028/9: the listed finding's territory.  Hiding it is what the
+        # property wants (a repaired filter does), showing it is the known deviation; the bug-compatible mirror is not consulted
+        odd = a.ref_kind == b'o' and any(0x7f <= ord(ch) <= 0x9f or ord(ch) in (0x2028, 0x2029) for ch in a.ref_text)
+        if odd and got == ('', 1, 1):
+            return
         if got != expected and not (interrupted_possible and got == ('', 1, 1)):
             c.violation('preview-output-differs-from-model', dict(rep, kind='impl-vs-model', got=repr(got), expected=repr(expected),
                                                                    reference=a.ref_text if a.ref_kind == b'o' else a.ref_err), no_input=True)
